@@ -162,6 +162,10 @@ You can provide input either as a file (as the first argument) or by piping logs
 			var outWriter *os.File
 			var err error
 			if outputFile != "" {
+				if encrypt && encryptionKeyFile != "" && isSameFile(outputFile, encryptionKeyFile) {
+					fmt.Fprintln(os.Stderr, "Error: --outputFile and --encryptionKeyFile name the same file; the output would overwrite the encryption key.")
+					os.Exit(1)
+				}
 				outWriter, err = os.Create(outputFile)
 				if err != nil {
 					fmt.Fprintf(os.Stderr, "Error opening output file: %v\n", err)
@@ -218,6 +222,11 @@ You can provide input either as a file (as the first argument) or by piping logs
 				for i, file := range files {
 					// Compose output file path with serial integer
 					outPath := fmt.Sprintf("%s.%d", outputFile, i)
+					if encrypt && encryptionKeyFile != "" && isSameFile(outPath, encryptionKeyFile) {
+						fmt.Fprintf(os.Stderr, "Error: output file %s and --encryptionKeyFile name the same file; the output would overwrite the encryption key.\n", outPath)
+						cleanup()
+						os.Exit(1)
+					}
 					outWriter, err := os.Create(outPath)
 					if err != nil {
 						fmt.Fprintf(os.Stderr, "Error opening output file %s: %v\n", outPath, err)
